@@ -445,3 +445,78 @@ func SafeExec(p Property, t *Trace) (res *Result) {
 	}()
 	return p.Exec(t)
 }
+
+// ---------------------------------------------------------------- current-case marker
+//
+// Enumerating executors call MarkCase before each case. The marker lives in a memory-mapped
+// file so that, when the worker process is killed by the runtime (fatal out-of-memory, stack
+// overflow) or hangs, the runner can still tell which single case was executing.
+
+var caseBuf []byte
+
+// EnableCaseMarker maps path (created/truncated to 64 KiB).
+func EnableCaseMarker(path string) error {
+	f, err := os.OpenFile(path, os.O_RDWR|os.O_CREATE|os.O_TRUNC, 0o644)
+	if err != nil {
+		return err
+	}
+	defer f.Close()
+	if err := f.Truncate(1 << 16); err != nil {
+		return err
+	}
+	b, err := mmapFile(f, 1<<16)
+	if err != nil {
+		return err
+	}
+	caseBuf = b
+	return nil
+}
+
+// MarkCase records the narrow trace (base trace + case ops) that is about to run.
+func MarkCase(base *Trace, caseOps []Op) {
+	if caseBuf == nil {
+		return
+	}
+	nt := *base
+	nt.Ops = append(append([]Op(nil), base.Ops...), caseOps...)
+	b, err := json.Marshal(&nt)
+	if err != nil || len(b)+8 > len(caseBuf) {
+		caseBuf[0] = 0
+		return
+	}
+	n := len(b)
+	caseBuf[0] = 0 // invalidate while writing
+	copy(caseBuf[8:], b)
+	caseBuf[1], caseBuf[2], caseBuf[3] = byte(n), byte(n>>8), byte(n>>16)
+	caseBuf[0] = 1
+}
+
+// ClearCase marks "no case in progress".
+func ClearCase() {
+	if caseBuf != nil {
+		caseBuf[0] = 0
+	}
+}
+
+// ReadCaseMarker returns the trace recorded in the marker file, if any.
+func ReadCaseMarker(path string) *Trace {
+	b, err := os.ReadFile(path)
+	if err != nil || len(b) < 8 || b[0] != 1 {
+		return nil
+	}
+	n := int(b[1]) | int(b[2])<<8 | int(b[3])<<16
+	if 8+n > len(b) {
+		return nil
+	}
+	var t Trace
+	if json.Unmarshal(b[8:8+n], &t) != nil {
+		return nil
+	}
+	if t.Cfg == nil {
+		t.Cfg = map[string]int64{}
+	}
+	if t.CfgS == nil {
+		t.CfgS = map[string]string{}
+	}
+	return &t
+}
